@@ -224,17 +224,18 @@ impl<Read: ReadHalf> ReadConnection<Read> {
         &mut self.socket
     }
 
-    /// Forwarder to the private `read_from_socket`.
-    pub async fn verif_read_from_socket(&mut self) -> Result<()> {
-        self.read_from_socket().await
+    /// Forwarder to the private `read_from_socket` (returns its future as is: no extra
+    /// coroutine around it).
+    pub fn verif_read_from_socket(&mut self) -> impl core::future::Future<Output = Result<()>> + '_ {
+        self.read_from_socket()
     }
 
-    /// Forwarder to the private `read_message`.
-    pub async fn verif_read_message<'m, M>(&'m mut self) -> Result<M>
+    /// Forwarder to the private `read_message` (returns its future as is).
+    pub fn verif_read_message<'m, M>(&'m mut self) -> impl core::future::Future<Output = Result<M>> + 'm
     where
-        M: Deserialize<'m> + Debug,
+        M: Deserialize<'m> + Debug + 'm,
     {
-        self.read_message::<M>().await
+        self.read_message::<M>()
     }
 }
 
